@@ -92,6 +92,25 @@ fn dispatch(args: &[String]) {
                 println!("{} -> {:?}  ticks={} {:.3}s", cfg.name(), r, t, t0.elapsed().as_secs_f64());
             }
         }
+        "enum" => {
+            // vcheck-bin enum <program-file> <goal>: SLG answer enumeration on a fresh solver (cap 24)
+            let text = std::fs::read_to_string(&args[2]).expect("read program");
+            let p = drive::load_program(&text).expect("program lowers");
+            let peeled = drive::peel(&p, &args[3]).expect("goal lowers");
+            let dec = drive::Decoder::with_universes(&p, &peeled.universes);
+            let mut solver = drive::AnySolver::new(drive::SolverCfg::SLG);
+            let mut n = 0;
+            let (r, t) = solver.solve_multiple(&*p, &peeled.ugoal, &mut |a, next| {
+                n += 1;
+                match &a {
+                    chalk_solve::SubstitutionResult::Definite(c) => println!("#{} definite {:?} next={}", n, dec.constrained(c), next),
+                    chalk_solve::SubstitutionResult::Ambiguous(c) => println!("#{} ambiguous {:?} next={}", n, dec.constrained(c), next),
+                    chalk_solve::SubstitutionResult::Floundered => println!("#{} floundered next={}", n, next),
+                }
+                n < 24
+            });
+            println!("returned {:?} ticks={}", r, t);
+        }
         "hist" => {
             // vcheck-bin hist <program-file> <solver-name-prefix> <goal> [<goal> ...]: one solver instance, goals in order
             let text = std::fs::read_to_string(&args[2]).expect("read program");
